@@ -52,5 +52,12 @@ InitOK(r) ==
 \* fresh random IDs: no ID occurs twice (new ones among each other and against the donors)
 IdsOK(r) == Cardinality(ToSet(r.ids)) = Len(r.ids)
 
-RecOK(r) == IF r.kind = "ids" THEN IdsOK(r) ELSE InitOK(r)
+\* one of init's own probing operations (Stat config, List keys, List snapshots) fails with a backend error:
+\* an existing repository is still refused, nothing is overwritten, a refusal writes nothing
+InitFaultOK(r) ==
+  /\ r.unchanged
+  /\ (Holds(r.pre) => ~r.ok)
+  /\ (~r.ok => NothingAdded(r.added))
+
+RecOK(r) == IF r.kind = "ids" THEN IdsOK(r) ELSE IF r.kind = "initfault" THEN InitFaultOK(r) ELSE InitOK(r)
 =============================================================================
